@@ -8,6 +8,13 @@ Open Scope nat_scope.
 Lemma countf_const_true {A} (p : A -> bool) v m : p v = true -> countf p (fun _ => v) m = m.
 Proof. intros Hv. induction m as [|m IH]; cbn [countf]; [reflexivity|]. rewrite IH, Hv. lia. Qed.
 
+Lemma countf_all {A} (p : A -> bool) f m :
+  (forall i, i < m -> p (f i) = true) -> countf p f m = m.
+Proof.
+  induction m as [|m IH]; intros H; cbn [countf]; [reflexivity|].
+  rewrite IH by (intros; apply H; lia). rewrite H by lia. lia.
+Qed.
+
 Ltac rstep_inv H :=
   unfold rstep in H;
   repeat match type of H with
@@ -64,26 +71,30 @@ Proof.
   try match goal with E : r_st s ?i = _ |- _ =>
         assert (i < ridx (r_pc s)) by (apply Hlt; congruence)
       end;
+  try match goal with Hx : _ < ridx (r_pc s) |- _ =>
+        assert (Hna : r_pc s <> RAdd) by (intros Hy; rewrite Hy in Hx; cbn in Hx; lia);
+        specialize (Hw Hna)
+      end;
   repeat match goal with E : r_pc s = _ |- _ => rewrite E in * end; cbn in Hpc, Hp, Hnp;
+  try (specialize (Hw ltac:(discriminate)));
   (* the panic case: the counter cannot be zero *)
   try (match goal with E : r_st s ?i = RStored, Z : r_wg s = 0 |- _ =>
-         exfalso; pose proof (countf_pos r_pre_done (r_st s) n i ltac:(lia) ltac:(now rewrite E));
-         assert (r_wg s = countf r_pre_done (r_st s) n) by (apply Hw; congruence || (intros Hx; cbn in *; lia)); lia end);
+         exfalso; pose proof (countf_pos r_pre_done (r_st s) n i ltac:(lia) ltac:(now rewrite E)); lia end);
   unfold rinv; cbn;
-  refine (conj _ (conj _ (conj _ (conj _ (conj _ (conj _ (conj _ _)))))));
+  (refine (conj _ (conj _ (conj _ (conj _ (conj _ (conj _ (conj _ _)))))));
   [ try assumption; try lia; try exact I
   | intros kk Hk; cbn in Hk; unfold upd; try case_upd; subst; try lia; try (apply Hp; cbn; lia)
   | intros kk Hk; cbn in Hk; unfold upd; try case_upd; subst; try discriminate; try lia; try (apply Hnp; cbn; lia)
-  | intros Hne; try (rewrite countf_const_true by reflexivity; reflexivity);
-    try (specialize (Hw ltac:(congruence || discriminate)));
+  | intros Hne; try (symmetry; apply countf_all; intros; rewrite Hp by lia; reflexivity);
     cnt; fix_rst Hp; cbn in *; try lia
   | intros Hd'; try discriminate; try lia; try (specialize (Hd Hd'); lia)
   | intros kk; unfold upd; try case_upd; subst; try apply Hc;
     rewrite Hc; (first [ match goal with E : r_st s _ = _ |- _ => rewrite E end | rewrite Hp by (cbn; lia) ]); reflexivity
-  | intros kk; unfold upd; repeat case_upd; subst; intros Hst; try discriminate; try reflexivity;
+  | intros kk; unfold upd; try case_upd; subst; intros Hst; try discriminate; try reflexivity;
     try (apply He; assumption);
     try (apply He; match goal with E : r_st s _ = _ |- _ => rewrite E end; reflexivity)
-  | reflexivity ].
+  | reflexivity ]).
+Show.
 Qed.
 
 Lemma rinv_reach s : rreach s -> rinv s.
